@@ -515,7 +515,35 @@ func c20GenNames(r *vRand, n int) ([]c20NodeRaw, int) {
 	return out, mode
 }
 
-var c20NameModes = []string{"absent", "in-order", "out-of-order", "duplicates", "partly", "numbered"}
+// c20NameClass: how the profile names of a section's entries relate to their document order.
+func c20NameClass(nodes []c20NodeRaw) string {
+	unnamed, dup, asc := 0, false, true
+	seen := map[string]bool{}
+	for i, n := range nodes {
+		if n.name == "" {
+			unnamed++
+			continue
+		}
+		if seen[n.name] {
+			dup = true
+		}
+		seen[n.name] = true
+		if i > 0 && !(nodes[i-1].name < n.name) {
+			asc = false
+		}
+	}
+	switch {
+	case unnamed == len(nodes):
+		return "absent"
+	case unnamed > 0:
+		return "partly"
+	case dup:
+		return "duplicates"
+	case asc:
+		return "in-order"
+	}
+	return "out-of-order"
+}
 
 // c20NameSortedFirst: which of the matching entries a reading "smallest profile name first" (stable) would take, given the
 // section's entries; -1 when that reading does not apply (some entry unnamed).  Only used to TAG inputs on which document
@@ -1130,6 +1158,9 @@ func TestVerifC20(t *testing.T) {
 					h.Tag(fmt.Sprintf("probe-%s:%s", c20SecNames[s], map[bool]string{true: "node-entry", false: "cluster"}[first >= 0]))
 					if len(matching) > 1 {
 						h.Tag("probe:overlapping-selectors")
+						if k := c20NameSortedFirst(g.sec.nodes, matching); k >= 0 && k != first {
+							h.Tag("probe:overlap-first-in-document-is-not-smallest-name")
+						}
 					}
 					if c20LayerEq(obs, exp) {
 						continue
@@ -1295,6 +1326,7 @@ func c20EmitSection(h *vHarness, s int, raw c20SecRaw, fail func(string, string,
 	var cluster []c20Entry
 	hasCluster := false
 	var nodes []nodeOut
+	var pnames []string // the profile names as parsed, in the order of the parsed slice
 	var err error
 	switch s {
 	case 0:
@@ -1304,6 +1336,7 @@ func c20EmitSection(h *vHarness, s int, raw c20SecRaw, fail func(string, string,
 				hasCluster, cluster = true, c20FlatOfGo(c.ClusterStrategy)
 			}
 			for _, ns := range c.NodeStrategies {
+				pnames = append(pnames, ns.Name)
 				if ns.ResourceThresholdStrategy != nil {
 					nodes = append(nodes, nodeOut{true, c20FlatOfGo(ns.ResourceThresholdStrategy)})
 				} else {
@@ -1318,6 +1351,7 @@ func c20EmitSection(h *vHarness, s int, raw c20SecRaw, fail func(string, string,
 				hasCluster, cluster = true, c20FlatOfGo(c.ClusterStrategy)
 			}
 			for _, ns := range c.NodeStrategies {
+				pnames = append(pnames, ns.Name)
 				if ns.ResourceQOSStrategy != nil {
 					nodes = append(nodes, nodeOut{true, c20FlatOfGo(ns.ResourceQOSStrategy)})
 				} else {
@@ -1332,6 +1366,7 @@ func c20EmitSection(h *vHarness, s int, raw c20SecRaw, fail func(string, string,
 				hasCluster, cluster = true, c20FlatOfGo(c.ClusterStrategy)
 			}
 			for _, ns := range c.NodeStrategies {
+				pnames = append(pnames, ns.Name)
 				if ns.CPUBurstStrategy != nil {
 					nodes = append(nodes, nodeOut{true, c20FlatOfGo(ns.CPUBurstStrategy)})
 				} else {
@@ -1346,6 +1381,7 @@ func c20EmitSection(h *vHarness, s int, raw c20SecRaw, fail func(string, string,
 				hasCluster, cluster = true, c20DropZeroTnb(c20FlatOfGo(c.ClusterStrategy))
 			}
 			for _, ns := range c.NodeStrategies {
+				pnames = append(pnames, ns.Name)
 				if ns.SystemStrategy != nil {
 					nodes = append(nodes, nodeOut{true, c20DropZeroTnb(c20FlatOfGo(ns.SystemStrategy))})
 				} else {
@@ -1363,6 +1399,7 @@ func c20EmitSection(h *vHarness, s int, raw c20SecRaw, fail func(string, string,
 				cluster = c20FlatOfGo(c.Applications)
 			}
 			for _, ns := range c.NodeConfigs {
+				pnames = append(pnames, ns.Name)
 				if len(ns.Applications) == 0 {
 					nodes = append(nodes, nodeOut{true, []c20Entry{{[]int{0}, 0}}})
 				} else {
@@ -1386,6 +1423,17 @@ func c20EmitSection(h *vHarness, s int, raw c20SecRaw, fail func(string, string,
 		fail("C20:json-glue-assumption", "section %s: %d node entries parsed, %d generated", c20SecNames[s], len(nodes), len(raw.nodes))
 		h.Op("sec %d 1 0", s)
 		return 1
+	}
+	// the parsed entries are the generated ones in DOCUMENT order (checked on their profile names)
+	if raw.state == 2 {
+		for i := range pnames {
+			if pnames[i] != raw.nodes[i].name {
+				fail("C20:json-glue-assumption", "section %s: parsed entry %d is named %q, generated %q (document order not kept by encoding/json?)", c20SecNames[s], i, pnames[i], raw.nodes[i].name)
+			}
+		}
+		if len(raw.nodes) >= 2 {
+			h.Tag("names:" + c20NameClass(raw.nodes))
+		}
 	}
 	// the statement's "sets the field" (c20Norm on the raw tree) must be what the repo's types + encoding/json
 	// read from the text, layer by layer (also for entries that never get selected)
